@@ -28,7 +28,15 @@ def bind_repo():
     if not f.startswith(os.path.realpath(REPO) + os.sep):
         raise SystemExit(f"HARNESS-ERROR: checkpoint_schedules imported from {f}, "
                          f"not from {REPO}")
-    warnings.filterwarnings("ignore", message="Numba not available")
+    if os.environ.get("VERIF_WARNINGS") == "error":
+        # an application (or `python -W error`, `pytest -W error`) that
+        # promotes warnings to errors: whatever the library warns about raises
+        # (any module: a warning issued with stacklevel=2 is attributed to
+        # the caller; the categories a library uses to talk to its user)
+        for cat in (RuntimeWarning, UserWarning, FutureWarning):
+            warnings.filterwarnings("error", category=cat)
+    else:
+        warnings.filterwarnings("ignore", message="Numba not available")
     _record_empty_tables()
     return checkpoint_schedules
 
@@ -114,7 +122,11 @@ def repo_mod(name):
 
 @contextlib.contextmanager
 def quiet():
-    """Swallow stdout (PeriodicDiskRevolve prints its period)."""
+    """Swallow stdout (PeriodicDiskRevolve prints its period) -- unless the
+    run is about what happens when the library really prints."""
+    if os.environ.get("VERIF_STDOUT") == "real":
+        yield
+        return
     old = sys.stdout
     sys.stdout = io.StringIO()
     try:
